@@ -46,12 +46,17 @@ func NewClientIO(
 		lastExecutedSeqNum: make(map[uint32]uint64),
 	}
 	clientpb.RegisterClientServer(srv.srv, srv)
+	// Execute and abort as part of AddEvent instead of via the event queue: the queue is bounded
+	// and drops its oldest entries when full, and a single commit of a long backlog (a replica
+	// catching up after a partition) adds more events than it holds. A dropped ExecuteEvent
+	// would make this replica skip committed commands and diverge from the others.
+	// This is safe because ClientIO protects its state with srv.mut.
 	eventloop.Register(el, func(event clientpb.ExecuteEvent) {
 		srv.Exec(event.Batch)
-	})
+	}, eventloop.UnsafeRunInAddEvent())
 	eventloop.Register(el, func(event clientpb.AbortEvent) {
 		srv.Abort(event.Batch)
-	})
+	}, eventloop.UnsafeRunInAddEvent())
 	return srv
 }
 
